@@ -173,7 +173,7 @@ def writeStruct (cfg : Cfg) (rs : RustStruct) : Outcome Str :=
 
 structure ScAlias where
   comments : List Str
-  name : Str          -- `id.original` (a serde rename of the alias is ignored)
+  name : Str          -- `id.renamed` (since the `fix:` commit b182a80; was `id.original`)
   generics : List Str
   ty : Str
 deriving Repr, Inhabited, DecidableEq
@@ -184,7 +184,7 @@ def renderAlias (a : ScAlias) : Str :=
 /-- `write_type_alias` as facts -/
 def aliasFacts (cfg : Cfg) (a : RustTypeAlias) : Outcome ScAlias :=
   (formatType cfg a.genericTypes a.ty).bind fun ty =>
-    .ok { comments := a.comments, name := a.id.original, generics := a.genericTypes, ty }
+    .ok { comments := a.comments, name := a.id.renamed, generics := a.genericTypes, ty }
 
 def writeAlias (cfg : Cfg) (a : RustTypeAlias) : Outcome Str :=
   (aliasFacts cfg a).bind fun f => .ok (renderAlias f)
@@ -230,17 +230,17 @@ def caseFacts (cfg : Cfg) (e : RustEnum) (v : RustEnumVariant) : Outcome ScCase 
     .ok { comments := v.comments, name := v.id.original, content := none,
           parent := e.id.renamed, parentGenerics := [], serialName := v.id.renamed }
   | some (_, contentKey) =>
-    -- `RustEnum::Algebraic`: `extends <original><generics>`
+    -- `RustEnum::Algebraic`: `extends <renamed><generics>` (since the `fix:` commit 03e02a1)
     let mk (content : Option (List Str × Str × Str)) : ScCase :=
       { comments := v.comments, name := variantName v.id.original, content,
-        parent := e.id.original, parentGenerics := e.genericTypes, serialName := v.id.renamed }
+        parent := e.id.renamed, parentGenerics := e.genericTypes, serialName := v.id.renamed }
     match v with
     | .unit _ _ => .ok (mk none)
     | .tuple _ _ ty =>
       (formatType cfg e.genericTypes ty).bind fun t => .ok (mk (some (e.genericTypes, contentKey, t)))
     | .anonymousStruct id _ fs =>
       .ok (mk (some (e.genericTypes, contentKey,
-        e.id.original ++ id.original ++ s%"Inner" ++ genericSq (usedGenerics e fs))))
+        e.id.renamed ++ id.original ++ s%"Inner" ++ genericSq (usedGenerics e fs))))
 
 /-- a sealed trait with its companion object, preceded by the classes generated for its struct
 variants -/
